@@ -134,12 +134,14 @@ func runC08(t *testing.T, c *C08Case) {
 	}
 	b, recB := mk(orderB)
 	peer := NewNode(t, NodeOpts{N: 4, F: 1, Oracle: 3, Digest: cd})
+	other := NewNode(t, NodeOpts{N: 4, F: 1, Digest: ocr2plustypes.ConfigDigest{byte(c.Digest) + 101, 9}})
 	defer func() {
 		time.Sleep(2 * time.Second)
 		synctest.Wait()
 		a.Plugin.Close()
 		b.Plugin.Close()
 		peer.Plugin.Close()
+		other.Plugin.Close()
 		synctest.Wait()
 	}()
 	// proposals (node a only): log recovery and conditional sampling
@@ -303,6 +305,11 @@ func runC08(t *testing.T, c *C08Case) {
 	}
 	seq := c.Seq
 	outctx := ocr3types.OutcomeContext{SeqNr: seq, PreviousOutcome: prevBytes}
+	{
+		// another job of the same process (another config digest) reaches this sequence number first: the round's order
+		// is a function of (digest, sequence number), nothing derived for one digest may serve another
+		_, _ = other.Plugin.Observation(context.Background(), ocr3types.OutcomeContext{SeqNr: seq}, nil)
+	}
 	obA, errA := a.Plugin.Observation(context.Background(), outctx, nil)
 	obB, errB := b.Plugin.Observation(context.Background(), outctx, nil)
 	if errA != nil || errB != nil {
